@@ -566,8 +566,9 @@ class CCITTFaxDecoder(CCITTG4Parser):
 
 
 def ccittfaxdecode(data: bytes, params: Optional[Dict[str, object]]) -> bytes:
-    if params is None:
-        # A null entry of a DecodeParms array stands for "all defaults".
+    if not isinstance(params, dict):
+        # A null entry of a DecodeParms array stands for "all defaults";
+        # so does anything else that is not a dictionary.
         params = {}
     K = params.get("K")
     if K == -1:
